@@ -22,7 +22,7 @@ import (
 // CaseID is the case of the specification, Expect the model's verdict (Asn1Lax.tla, Verdict).
 type CaseID struct {
 	Shape  string `json:"shape"`
-	Wrap   string `json:"wrap"`
+	Wrap   []string `json:"wrap"` // containers of mode laxAncestor, outermost first
 	V      int    `json:"v"`
 	Defect string `json:"defect"`
 	Path   []int  `json:"path"`
@@ -40,14 +40,16 @@ type Expect struct {
 	RTStd    bool   `json:"rtStd"`
 	InEffect bool   `json:"inEffect"`
 }
+func (c *CaseID) key() string { return c.Shape + "/" + strings.Join(c.Wrap, "+") }
+
 type Case struct {
 	C CaseID `json:"c"`
 	E Expect `json:"e"`
 }
 type ShapeRec struct {
-	Name string `json:"name"`
-	Wrap string `json:"wrap"`
-	Tree *Node  `json:"tree"`
+	Name string   `json:"name"`
+	Wrap []string `json:"wrap"`
+	Tree *Node    `json:"tree"`
 }
 
 var restBytes = []byte{0xde, 0xad, 0xbe}
@@ -142,7 +144,7 @@ type realized struct {
 }
 
 func realize(cs *Case, shapes map[string]*Node) (*realized, error) {
-	key := cs.C.Shape + "/" + cs.C.Wrap
+	key := cs.C.key()
 	tree := shapes[key]
 	if tree == nil {
 		return nil, fmt.Errorf("shape %s not exported", key)
@@ -181,7 +183,7 @@ func runCase(cs *Case, shapes map[string]*Node, rep *vh.Report, t *testing.T) {
 		t.Errorf("%+v: %v", cs.C, err)
 		return
 	}
-	id := fmt.Sprintf("%s:%s:%s", cs.C.Mode, cs.C.Defect, r.ctx)
+	id := fmt.Sprintf("%s:%s", cs.C.Defect, r.ctx)
 	replay := map[string]any{"case": cs, "input_hex": hx(r.input), "go_type": r.tFork.String()}
 
 	// upstream: a disagreement with the model is an error of the model / of the DER builder, not of the fork
@@ -206,7 +208,7 @@ func runCase(cs *Case, shapes map[string]*Node, rep *vh.Report, t *testing.T) {
 	check := func(which string, o outcome, want string, wantRT bool) {
 		got := o.verdict()
 		if got == "panic" {
-			rep.Violate("panic:"+id, fmt.Sprintf("%s decoder panicked on input %s into %v: %s", which, hx(r.input), r.tFork, o.panic), replay)
+			rep.Violate("panic:"+which+":"+id, fmt.Sprintf("%s decoder panicked on input %s into %v: %s", which, hx(r.input), r.tFork, o.panic), replay)
 			return
 		}
 		if got != want {
@@ -245,16 +247,16 @@ func runCase(cs *Case, shapes map[string]*Node, rep *vh.Report, t *testing.T) {
 		lax := runFork(r.tFork, r.input, "lax")
 		check(cs.C.Mode, lax, cs.E.Mode, cs.E.RTMode)
 		if strict.ok && lax.ok && (strict.canon != lax.canon || !bytes.Equal(strict.rest, lax.rest)) {
-			rep.Violate("laxsuperset:value:"+id, fmt.Sprintf("strict and lax both accept %s into %v with different results: %s rest %x vs %s rest %x",
+			rep.Violate("laxsuperset:"+cs.C.Mode+":"+id, fmt.Sprintf("strict and lax both accept %s into %v with different results: %s rest %x vs %s rest %x",
 				hx(r.input), r.tFork, strict.canon, strict.rest, lax.canon, lax.rest), replay)
 		}
 	case "fieldTag":
-		tt := cachedType(cs.C.Shape+"/"+cs.C.Wrap, r.tree, fork, cs.C.LaxAt)
+		tt := cachedType(cs.C.key(), r.tree, fork, cs.C.LaxAt)
 		o := runFork(tt, r.input, "")
 		if cs.E.Mode == "unasserted" {
 			// named clause FieldTagLax: recorded, not asserted
 			if o.panic != "" {
-				rep.Violate("panic:"+id, fmt.Sprintf("decoder panicked on input %s into %v: %s", hx(r.input), tt, o.panic), replay)
+				rep.Violate("panic:fieldTag:"+id, fmt.Sprintf("decoder panicked on input %s into %v: %s", hx(r.input), tt, o.panic), replay)
 			} else if o.ok {
 				rep.Add("fieldtag_lax_honoured", 1)
 			} else {
@@ -264,7 +266,7 @@ func runCase(cs *Case, shapes map[string]*Node, rep *vh.Report, t *testing.T) {
 			check("fieldTag", o, cs.E.Mode, false)
 		}
 	}
-	rep.Eval(fmt.Sprintf("%s/%s/%d/%s/%s/%v/%v", cs.C.Shape, cs.C.Wrap, cs.C.V, cs.C.Defect, cs.C.Mode, cs.C.Path, cs.C.LaxAt))
+	rep.Eval(fmt.Sprintf("%s/%d/%s/%s/%v/%v", cs.C.key(), cs.C.V, cs.C.Defect, cs.C.Mode, cs.C.Path, cs.C.LaxAt))
 }
 
 func loadInputs(t *testing.T) ([]Case, map[string]*Node) {
@@ -282,7 +284,7 @@ func loadInputs(t *testing.T) ([]Case, map[string]*Node) {
 	}
 	shapes := map[string]*Node{}
 	for _, r := range recs {
-		shapes[r.Name+"/"+r.Wrap] = r.Tree
+		shapes[r.Name+"/"+strings.Join(r.Wrap, "+")] = r.Tree
 	}
 	return cases, shapes
 }
@@ -342,7 +344,7 @@ func bases(cases []Case, shapes map[string]*Node, t *testing.T) []base {
 	var out []base
 	for i := range cases {
 		c := &cases[i]
-		k := fmt.Sprintf("%s/%s/%d/%s/%v", c.C.Shape, c.C.Wrap, c.C.V, c.C.Defect, c.C.Path)
+		k := fmt.Sprintf("%s/%d/%s/%v", c.C.key(), c.C.V, c.C.Defect, c.C.Path)
 		if seen[k] {
 			continue
 		}
